@@ -17,21 +17,22 @@ import (
 // int: the number of consumed bytes, 0 = failure), the path stack field, the
 // recursion cap field, the inspected-bytes field.
 type jsonModel struct {
-	pkg      *ssa.Package
-	parse    *ssa.Function
-	pool     *ssa.Global
-	state    *types.Named
-	stStruct *types.Struct
-	fam      map[*ssa.Function]bool
-	famList  []*ssa.Function
-	reset    *ssa.Function                  // first method called on the pooled value
-	entry    *ssa.Call                      // the call from parse into the family
-	stackF   int                            // path stack field
-	capF     int                            // recursion cap field
-	guardFn  *ssa.Function                  // family function holding the depth guard
-	getter   *ssa.Function                  // optional helper that takes the state from the pool (and may reset it) for the entry
-	passIdx  map[*ssa.Function]map[int]bool // wrapper -> result positions that hand a scanner's consumed count straight through
-	wrap     map[*ssa.Function]bool         // non-family methods of the state that call into the family on their own receiver
+	pkg         *ssa.Package
+	parse       *ssa.Function
+	pool        *ssa.Global
+	state       *types.Named
+	stStruct    *types.Struct
+	fam         map[*ssa.Function]bool
+	famList     []*ssa.Function
+	reset       *ssa.Function                  // first method called on the pooled value
+	entry       *ssa.Call                      // the call from parse into the family
+	stackF      int                            // path stack field
+	capF        int                            // recursion cap field
+	guardFn     *ssa.Function                  // family function holding the depth guard
+	guardHelper *ssa.Function                  // predicate method of the state that holds the comparison, when the guard is written through one
+	getter      *ssa.Function                  // optional helper that takes the state from the pool (and may reset it) for the entry
+	passIdx     map[*ssa.Function]map[int]bool // wrapper -> result positions that hand a scanner's consumed count straight through
+	wrap        map[*ssa.Function]bool         // non-family methods of the state that call into the family on their own receiver
 }
 
 func getJSON(c *core.Ctx) *jsonModel {
@@ -207,6 +208,40 @@ func getJSON(c *core.Ctx) *jsonModel {
 				_, fld, isLoad = core.LoadOfField(bo.X)
 				if _, isParam := bo.Y.(*ssa.Parameter); isParam && isLoad && (bo.Op == token.LSS || bo.Op == token.LEQ) {
 					m.capF, m.guardFn = fld, f
+				}
+			}
+		}
+	}
+	// the guard may sit in a predicate method of the state (`func (p *state) tooDeep(lvl int) bool`) that a family
+	// function calls with its depth parameter: not modelled (the rules that need the guard are undecided, not violated)
+	if m.guardFn == nil {
+		for _, f := range m.famList {
+			for _, ci := range core.Calls(f) {
+				h := ci.Common().StaticCallee()
+				if h == nil || h.Blocks == nil || h.Signature.Recv() == nil || !m.isState(h.Signature.Recv().Type()) || m.fam[h] {
+					continue
+				}
+				for _, b := range h.Blocks {
+					for _, in := range b.Instrs {
+						bo, ok := in.(*ssa.BinOp)
+						if !ok {
+							continue
+						}
+						_, _, ly := core.LoadOfField(bo.Y)
+						_, _, lx := core.LoadOfField(bo.X)
+						_, px := bo.X.(*ssa.Parameter)
+						_, py := bo.Y.(*ssa.Parameter)
+						if (px && ly) || (py && lx) {
+							_, fy, _ := core.LoadOfField(bo.Y)
+							_, fx, _ := core.LoadOfField(bo.X)
+							if ly {
+								m.capF = fy
+							} else {
+								m.capF = fx
+							}
+							m.guardFn, m.guardHelper = f, h
+						}
+					}
 				}
 			}
 		}
